@@ -52,7 +52,7 @@ CLAIMS = {
             'C15_mirror / C15_symmetric / C15_list_order: for every well-formed position the colour-flipped position evaluates identically (material, piece-square tables incl. the binary64 king taper with identical arguments, own and opponent mobility with the king-capture and start-rank-ep quirks), and the value does not depend on piece-list order; from kernel sweeps over the regenerated tables + equivariance of is_under_check/make/count_moves.' + CORR,
             TB + 'IEEE binary64 modelled with Coq SpecFloat; no float reasoning needed for symmetry.', '6/C15'),
     'C16': ('Coq stack-discipline theorems for every oracle + in-process query sequences with snapshots',
-            'C16_go_leaves_the_stack etc.: every push is popped on every exit path (cut-off, interruption, deadline) and the evaluation\'s turn-flag flip is undone, for all oracles/orderings; perft/eval are modelled functionally. C16sess.v: C16_only_position_changes_the_position: in the session model NO line other than a `position` command changes the position (go with any search result, perft, tperft, eval, tostr, isready, setoption, stop, uci, help, junk), and the engine's search hands back the one-slot stack it was given. The engine is checked after every query command of random sequences (stack index 0, snapshot unchanged, same probe search).' + CORR,
+            'C16_go_leaves_the_stack etc.: every push is popped on every exit path (cut-off, interruption, deadline) and the evaluation\'s turn-flag flip is undone, for all oracles/orderings; perft/eval are modelled functionally. C16sess.v: C16_only_position_changes_the_position: in the session model NO line other than a `position` command changes the position (go with any search result, perft, tperft, eval, tostr, isready, setoption, stop, uci, help, junk), and the search of the engine hands back the one-slot stack it was given. The engine is checked after every query command of random sequences (stack index 0, snapshot unchanged, same probe search).' + CORR,
             TB, '6/C16'),
     'C17': ('Coq theorems: the command interpreter is total and keeps the session invariant for every line + grammar/junk scripts on the real binary vs the session model',
             'C17_interpreter_total(_legal_moves), C17_go_arguments_total, C17_session_never_crashes: for EVERY input line (arbitrary text, truncated commands, any numeric argument, options out of range, commands before a position, rejected FENs, move lists that are legal per UCI) `handle` returns without panic and keeps (position well-formed, ply margin, logging interval in range); C17full.v: NO premise is left: C17_search_never_panics (iterative deepening from any well-formed legal position, depth 1..40, any killer table, any stop/clock stream, never panics: capacity + stale-PV + generator/make + index panics all excluded), perft/tperft totality (PerftProofs), hence C17_interpreter_never_panics and C17_read_loop_never_crashes for the engine\'s own search under any permuting ordering. Engine: scripts line by line, output classes vs model, liveness (`isready`->`readyok`) after every line; commands during a running search incl. a 70 KB line.' + CORR,
